@@ -5,8 +5,8 @@ pub mod apply { pub use super::{apply_op, try_apply_op}; }
 //@props C01 C02 C04 C07
 //@extract src/taskdb/apply.rs :: fn apply_op
 pub fn apply_op(txn: &mut dyn StorageTxn, op: &SyncOp) -> (r: Result<()>)
-    requires old(txn).inv(), !old(txn).st().committed,
-    ensures final(txn).inv(),
+    requires old(txn).inv(),
+    ensures final(txn).inv(), final(txn).stored() == old(txn).stored(),
         //@ob C01 C05 C07 apply_op.follows-the-documented-operation-model
         match r {
             Ok(_) => valid(old(txn).st().tasks, *op)
@@ -28,8 +28,8 @@ pub fn apply_op(txn: &mut dyn StorageTxn, op: &SyncOp) -> (r: Result<()>)
 //@end
 //@extract src/taskdb/apply.rs :: fn try_apply_op
 pub fn try_apply_op(txn: &mut dyn StorageTxn, op: &SyncOp) -> (r: Result<bool>)
-    requires old(txn).inv(), !old(txn).st().committed,
-    ensures final(txn).inv(),
+    requires old(txn).inv(),
+    ensures final(txn).inv(), final(txn).stored() == old(txn).stored(),
         //@ob C01 C04 C05 try_apply_op.applies-iff-valid-and-reports-only-storage-errors
         match r {
             Ok(b) => b == valid(old(txn).st().tasks, *op)
